@@ -51,6 +51,7 @@ TRANSLATED_A = [
     'pyramid/scripting.py:prepare',
     'pyramid/scripting.py:prepare.closer',
     'pyramid/scripting.py:AppEnvironment.__exit__',
+    'pyramid/paster.py:bootstrap',
 ]
 
 # what tools/coverage_map.py reads: the skeleton translations above plus the functions translated into the
@@ -76,6 +77,7 @@ R, T, Q, V, W, C, A, RO, S = ('pyramid/router.py', 'pyramid/threadlocal.py', 'py
                               'pyramid/view.py', 'pyramid/tweens.py', 'pyramid/config/__init__.py',
                               'pyramid/config/actions.py', 'pyramid/config/routes.py', 'pyramid/scripting.py')
 U = 'pyramid/util.py'
+PA = 'pyramid/paster.py'
 
 # push sites: function containing a manager.push -> frame tag
 PUSH_TAGS = {(T, 'RequestContext.begin'): 1, (V, 'ViewMethodsMixin.invoke_exception_view'): 2,
@@ -153,6 +155,8 @@ BIND = {
         'request._process_finished_callbacks': ('proc', (Q, 'CallbackMethodsMixin._process_finished_callbacks'), 'fincb'),
     },
     (S, 'AppEnvironment.__exit__'): {"self['closer']": ('proc', (S, 'prepare.closer'))},
+    # pyramid.paster.bootstrap (outside the anchor files): get_app (opaque), then scripting.prepare
+    (PA, 'bootstrap'): {'prepare': ('proc', (S, 'prepare'))},
 }
 
 # attribute / function names that denote scope operations: an unbound use is a problem
@@ -629,6 +633,11 @@ def programs(tr):
     # `with prepare(..) as env: body`  (AppEnvironment.__enter__ returns self)
     P['prog_prepare_with'] = Seq(tr.proc((S, 'prepare')),
                                  ('TryFinally', body, tr.proc((S, 'AppEnvironment.__exit__'))))
+    # `with bootstrap(ini) as env: body` -- what bootstrap returns is the AppEnvironment of prepare (fact
+    # bootstrap_returns_env in prop.py)
+    P['prog_bootstrap'] = tr.proc((PA, 'bootstrap'))
+    P['prog_bootstrap_with'] = Seq(tr.proc((PA, 'bootstrap')),
+                                   ('TryFinally', body, tr.proc((S, 'AppEnvironment.__exit__'))))
     return P
 
 
